@@ -155,7 +155,9 @@ def run(tier, seed):
         nvar += 1
         if not canon.same(c["exp"], got):
             info = {"verb": c["verb"], "m": c["m"], "ka": kind(c["a"]), "kb": kind(c["b"]) if not c["m"] else None, "diff": "via-variable",
-                    "src": lit_src, "numeric_only": False, "char1_only": False, "shapes_differ": False, "expected": canon.show(c["exp"]),
+                    "src": lit_src, "numeric_only": False, "char1_only": False,
+                    "shapes_differ": (not c["m"]) and c["a"]["t"] == "l" and c["b"]["t"] == "l" and canon.shape(c["a"]) != canon.shape(c["b"]),
+                    "expected": canon.show(c["exp"]),
                     "observed": canon.show(got) if got["t"] not in ("exc", "x", "b", "f") else str(got), "exception": exc}
             info["what"] = (f"{lit_src} evaluated with its operands held by variables of a long-lived interpreter gives {info['observed']}"
                             f"{' (' + exc + ')' if exc else ''}; the same text from literals gives the prescribed {info['expected']}")
